@@ -192,12 +192,26 @@ def r2_seal_reaches_hash_inputs(chk: Check):
     chk.require(rets == ["(not config.__xpm__._sealed, config)"], chk.fkey(pre, "stops on sealed nodes"), f"Sealer.preprocess returns {rets}", chk.loc(pre.module, pre.node))
 
 
+def init_tasks_owned(chk: Check):
+    """The init tasks of a submitted task are part of its frozen identity: submit() stores its own list, not the caller's (nor the shared default)"""
+    tree = chk.tree
+    sub = tree.func("core.objects", "ConfigInformation.submit")
+    st = [x for x in body_walk(sub.node) if isinstance(x, ast.Assign) and src(x.targets[0]) == "self.init_tasks"]
+    chk.min_instances(len(st), 1, "store of self.init_tasks in submit")
+    params = {a.arg for a in sub.node.args.args + sub.node.args.kwonlyargs}
+    for x in st:
+        alias = isinstance(x.value, ast.Name) and x.value.id in params
+        chk.require(not alias, chk.fkey(sub, "own list of init tasks"), f"`{norm_stmt(x)}` stores the caller's list: appending to it after the submission changes the sealed task (and the parameter file of its job) "
+                    "while its identifier stays", chk.loc(sub.module, x))
+
+
 def r3_submit_order(chk: Check):
+    init_tasks_owned(chk)
     tree = chk.tree
     f = tree.func("core.objects", "ConfigInformation.submit")
     g = CFG(f.node)
     loc = chk.loc(f.module, f.node)
-    ini = [n for n in g.live if n.kind == "stmt" and src(n.ast) == "self.init_tasks = init_tasks"]
+    ini = [n for n in g.live if n.kind == "stmt" and isinstance(n.ast, ast.Assign) and src(n.ast.targets[0]) == "self.init_tasks" and "init_tasks" in src(n.ast.value)]
     # (validate_and_seal is spliced into submit at load time: the rule reads `self.validate()` ... `self.seal(context)` in submit itself)
     va = [n for n, c in g.call_nodes(lambda c: src(c) == "self.validate()")]
     vs = [n for n, c in g.call_nodes(lambda c: dotted(c.func) == "self.seal")]
